@@ -65,7 +65,7 @@ Inductive value :=
 | VRef (p : string)                          (* &path *)
 | VRec (ty : string) (fs : list (string * value))
 | VTup (l : list value)
-| Vkbad (why : string).
+| VBad (why : string).
 
 Definition effect := (string * list value)%type.
 Record st := mkSt { env : list (string * value); eff : list effect }.
@@ -123,14 +123,15 @@ Section Interp.
     | _, VF x, VF y =>
         if String.eqb op "+" || String.eqb op "-" || String.eqb op "*" || String.eqb op "/"
         then VF (FBin op x y) else VB (fcmp op x y)
-    | _, _, _ => Vkbad ("binop " ++ op)
+    | _, _, _ => VBad ("binop " ++ op)
     end.
 
   Definition unop (op : string) (a : value) : value :=
     match op, a with
     | "!", VB x => VB (negb x)
     | "-", VZ x => VZ (- x)
-    | _, _ => Vkbad ("unop " ++ op)
+    | "&", VRec ty fs => VRec ty fs          (* address of a composite literal: a fresh object *)
+    | _, _ => VBad ("unop " ++ op)
     end.
 
   Definition assign1 (l : gexpr) (v : value) (s : st) : option st :=
